@@ -9,6 +9,7 @@ import (
 	"math/big"
 	"sort"
 	"strings"
+	"sync"
 )
 
 type Term struct {
@@ -21,6 +22,7 @@ type Term struct {
 	s    string // cached rendering
 	Deps []*Term // raw leaves: symbols mentioned inside
 	Def  *Term   // leaf only: this symbol abbreviates Def (rendered as define-fun); see name()
+	QDef *Term   // leaf only: Bool symbol defined as equivalent to this quantified formula (asserted as an axiom)
 	hasBound bool // mentions a quantifier-bound variable (never abbreviated)
 	hasQ     bool // contains a quantifier (never abbreviated, so that "(forall " stays visible)
 	Pre      bool // leaf: a reference known to be pre-existing (< alloc0), hence distinct from every allocation of this call
@@ -30,6 +32,7 @@ type Term struct {
 // rendering them as trees made single obligations tens of megabytes. An abbreviation is a conservative
 // extension (the symbol is *defined*), so it is sound in hypotheses and in goals alike.
 var (
+	defMu         sync.Mutex
 	defByStr      = map[string]*Term{}
 	defCtr        int
 	nameThreshold = 220
@@ -62,6 +65,8 @@ func finish(t *Term) *Term {
 		return t
 	}
 	k := t.String()
+	defMu.Lock()
+	defer defMu.Unlock()
 	if d, ok := defByStr[k]; ok {
 		return d
 	}
@@ -252,6 +257,131 @@ func bin(op string, a, b *Term, f func(x, y *big.Int) *big.Int) *Term {
 }
 func isZero(t *Term) bool { return t.IsConst() && t.C.Sign() == 0 }
 
+// ---- linear normal form ----
+// Sums, differences and constant multiples (a ring modulo 2^w) are kept as one canonical sum of atoms with
+// constant coefficients, ordered by the atoms' rendering. Position bookkeeping computed incrementally by the
+// code and recomputed from scratch by a specification function then yields syntactically equal terms.
+
+type linForm struct {
+	c     *big.Int
+	coef  map[string]*big.Int
+	atom  map[string]*Term
+	count int
+}
+
+func newLin() *linForm {
+	return &linForm{c: new(big.Int), coef: map[string]*big.Int{}, atom: map[string]*Term{}}
+}
+
+func (l *linForm) addAtom(t *Term, k *big.Int) {
+	key := t.String()
+	if c, ok := l.coef[key]; ok {
+		c.Add(c, k)
+	} else {
+		l.coef[key] = new(big.Int).Set(k)
+		l.atom[key] = t
+	}
+}
+
+func (l *linForm) add(t *Term, k *big.Int, depth int) {
+	l.count++
+	if t.IsConst() {
+		l.c.Add(l.c, new(big.Int).Mul(t.C, k))
+		return
+	}
+	c := t
+	if depth < 6 && t.Def != nil {
+		if op := t.Def.Op; op == "bvadd" || op == "bvsub" || op == "bvneg" || op == "bvmul" {
+			c = t.Def
+		}
+	}
+	switch {
+	case c.Op == "bvadd" && depth < 40:
+		for _, a := range c.Args {
+			l.add(a, k, depth+1)
+		}
+	case c.Op == "bvsub" && len(c.Args) == 2 && depth < 40:
+		l.add(c.Args[0], k, depth+1)
+		l.add(c.Args[1], new(big.Int).Neg(k), depth+1)
+	case c.Op == "bvneg" && depth < 40:
+		l.add(c.Args[0], new(big.Int).Neg(k), depth+1)
+	case c.Op == "bvmul" && len(c.Args) == 2 && c.Args[0].IsConst() && depth < 40:
+		l.add(c.Args[1], new(big.Int).Mul(k, c.Args[0].C), depth+1)
+	case c.Op == "bvmul" && len(c.Args) == 2 && c.Args[1].IsConst() && depth < 40:
+		l.add(c.Args[0], new(big.Int).Mul(k, c.Args[1].C), depth+1)
+	default:
+		l.addAtom(t, k)
+	}
+}
+
+func (l *linForm) build(w int) *Term {
+	m := mask(w)
+	keys := make([]string, 0, len(l.coef))
+	for k, c := range l.coef {
+		c.And(c, m)
+		if c.Sign() != 0 {
+			keys = append(keys, k)
+		}
+	}
+	sort.Strings(keys)
+	cst := new(big.Int).And(l.c, m)
+	var acc *Term
+	one := big.NewInt(1)
+	var negs []*Term
+	for _, k := range keys {
+		c, a := l.coef[k], l.atom[k]
+		var t *Term
+		switch {
+		case c.Cmp(one) == 0:
+			t = a
+		case c.Cmp(m) == 0: // coefficient -1
+			negs = append(negs, a)
+			continue
+		default:
+			t = app("bvmul", w, BVConst(c, w), a)
+		}
+		if acc == nil {
+			acc = t
+		} else {
+			acc = app("bvadd", w, acc, t)
+		}
+	}
+	if cst.Sign() != 0 {
+		if acc == nil {
+			acc = BVConst(cst, w)
+		} else {
+			acc = app("bvadd", w, acc, BVConst(cst, w))
+		}
+	}
+	if acc == nil {
+		if len(negs) == 0 {
+			return BVu(0, w)
+		}
+		acc = app("bvneg", w, negs[0])
+		negs = negs[1:]
+	}
+	for _, n := range negs {
+		acc = app("bvsub", w, acc, n)
+	}
+	return acc
+}
+
+func linear(w int, parts ...struct {
+	t *Term
+	k int64
+}) *Term {
+	l := newLin()
+	for _, p := range parts {
+		l.add(p.t, big.NewInt(p.k), 0)
+	}
+	return l.build(w)
+}
+
+type linPart = struct {
+	t *Term
+	k int64
+}
+
 // ---- byte-lane normal form ----
 // A term assembled from zero-extended pieces at disjoint bit positions (the usual way of reading a little- or
 // big-endian integer byte by byte, with + or |, in any width) is rebuilt as one concat of its pieces, so that the
@@ -408,6 +538,9 @@ func Add(a, b *Term) *Term {
 			return j
 		}
 	}
+	if a.W == b.W && a.W >= 8 && !a.hasBound && !b.hasBound {
+		return linear(a.W, linPart{a, 1}, linPart{b, 1})
+	}
 	// (x + c1) + c2 => x + (c1+c2)
 	if ac := a.core(); b.IsConst() && ac.Op == "bvadd" && ac.Args[1].IsConst() {
 		return Add(ac.Args[0], BVConst(new(big.Int).Add(ac.Args[1].C, b.C), a.W))
@@ -418,6 +551,9 @@ func Sub(a, b *Term) *Term {
 	if isZero(b) {
 		return a
 	}
+	if a.W == b.W && a.W >= 8 && !a.hasBound && !b.hasBound {
+		return linear(a.W, linPart{a, 1}, linPart{b, -1})
+	}
 	if b.IsConst() {
 		return Add(a, BVConst(new(big.Int).Neg(b.C), a.W))
 	}
@@ -427,11 +563,24 @@ func Sub(a, b *Term) *Term {
 	return bin("bvsub", a, b, func(x, y *big.Int) *big.Int { return new(big.Int).Sub(x, y) })
 }
 func Mul(a, b *Term) *Term {
+	if a.W == b.W && a.W >= 8 && (a.IsConst() != b.IsConst()) && !a.hasBound && !b.hasBound {
+		if a.IsConst() {
+			l := newLin()
+			l.add(b, a.C, 0)
+			return l.build(a.W)
+		}
+		l := newLin()
+		l.add(a, b.C, 0)
+		return l.build(a.W)
+	}
 	return bin("bvmul", a, b, func(x, y *big.Int) *big.Int { return new(big.Int).Mul(x, y) })
 }
 func Neg(a *Term) *Term {
 	if a.IsConst() {
 		return BVConst(new(big.Int).Neg(a.C), a.W)
+	}
+	if a.W >= 8 && !a.hasBound {
+		return linear(a.W, linPart{a, -1})
 	}
 	return app("bvneg", a.W, a)
 }
@@ -685,6 +834,9 @@ func (t *Term) leaves(m map[string]*Term) {
 		if t.Def != nil {
 			t.Def.leaves(m)
 		}
+		if t.QDef != nil {
+			t.QDef.leaves(m)
+		}
 		return
 	}
 	if t.Op == "forall" {
@@ -742,6 +894,23 @@ func subst(t *Term, name string, repl *Term) *Term {
 	}
 	if !changed {
 		return t
+	}
+	// rebuild through the simplifying constructors where that is cheap (keeps index terms in normal form)
+	switch {
+	case t.Op == "bvadd" && len(args) == 2:
+		return Add(args[0], args[1])
+	case t.Op == "bvsub" && len(args) == 2:
+		return Sub(args[0], args[1])
+	case t.Op == "and":
+		return And(args...)
+	case t.Op == "or":
+		return Or(args...)
+	case t.Op == "not":
+		return Not(args[0])
+	case t.Op == "=" && len(args) == 2:
+		return Eq(args[0], args[1])
+	case t.Op == "select" && len(args) == 2 && t.W >= 0:
+		return Select(args[0], args[1], t.W)
 	}
 	return finish(&Term{Op: t.Op, Args: args, W: t.W, Sort: t.Sort})
 }
